@@ -34,6 +34,9 @@ var ErrEmptyAddress = errors.New("empty Address")
 // ErrNilTrie signals that a trie is nil and no operation can be made
 var ErrNilTrie = errors.New("trie is nil")
 
+// ErrNilTriesHolder signals that a nil data tries holder has been provided
+var ErrNilTriesHolder = errors.New("nil data tries holder")
+
 // ErrNilHasher signals that an operation has been attempted to or with a nil hasher implementation
 var ErrNilHasher = errors.New("nil hasher")
 
